@@ -28,7 +28,8 @@ def _program(which, flags):
     body_t = tys.Variable(0, tys.TypeBound.Any) if poly else Q
     g = m.define_function("g<lambda>.inner" if flags["odd_name"] else "g", [body_t], [body_t], type_params=params)
     g.set_outputs(*g.inputs())
-    decl = m.declare_function("d", tys.PolyFuncType([], tys.FunctionType([B], [B, B])))
+    # (a declaration may carry the very name of the definition above: symbols must still tell them apart)
+    decl = m.declare_function(("g<lambda>.inner" if flags["odd_name"] else "g") if flags["same_names"] else "d", tys.PolyFuncType([], tys.FunctionType([B], [B, B])))
     f = m.define_function("main", [Q, B])
     q, b = f.inputs()
     inst = tys.FunctionType([Q], [Q]) if poly else None
@@ -53,10 +54,10 @@ def _program(which, flags):
 
 @lemma("C12", params=lambda: [(i,) for i in range(len(programs.MODULES) + 1)],
        bounds="the 8 builder program templates plus a parametrised module (functions called once or twice, a constant loaded once or twice, "
-              "polymorphic or monomorphic callee, unused outputs, an order edge between siblings, an order edge to the Output node), one task each",
+              "polymorphic or monomorphic callee, two functions of one name, unused outputs, an order edge between siblings, an order edge to the Output node), one task each",
        outside="other programs; the textual / binary form of the model (needs the native hugr._hugr, absent offline)")
 def exported_module_is_well_scoped(which):
-    flags = {"poly": False, "call_twice": False, "load_twice": False, "order": False, "order_to_output": False, "odd_name": False, "order_from_input_first": False}
+    flags = {"poly": False, "call_twice": False, "load_twice": False, "order": False, "order_to_output": False, "odd_name": False, "order_from_input_first": False, "same_names": False}
     if which == len(programs.MODULES):
         for k in flags:
             flags[k] = sym.concretize(sym.bool(k))
